@@ -77,6 +77,29 @@ func vC11GResolver() *Resolver {
 	}
 }
 
+// corpus/C11/regroup.json: [{"note":..., "callers":[[arrive_ms, own_end_ms, kind 1 deadline | 2 cancel], ...], "recover_at":-1}]
+type vC11GCorpusEntry struct {
+	Note      string   `json:"note"`
+	Callers   [][3]int `json:"callers"`
+	RecoverAt int      `json:"recover_at"`
+}
+
+func vC11GCorpus() []vC11GCorpusEntry {
+	dir := os.Getenv("VERIF_CORPUS")
+	if dir == "" {
+		return nil
+	}
+	b, err := os.ReadFile(dir + "/regroup.json")
+	if err != nil {
+		return nil
+	}
+	var es []vC11GCorpusEntry
+	if json.Unmarshal(b, &es) != nil {
+		return nil
+	}
+	return es
+}
+
 func TestVerifC11Regroup(t *testing.T) {
 	out := os.Getenv("VERIF_OUT")
 	if out == "" {
@@ -112,6 +135,7 @@ func TestVerifC11Regroup(t *testing.T) {
 	defer srv.Shutdown()
 	addr := pc.LocalAddr().String()
 
+	corpus := vC11GCorpus()
 	for c := 0; c < n; c++ {
 		// ---- generate: distinct instants (ms), arrival before own end ----
 		used := map[int]bool{}
@@ -128,7 +152,18 @@ func TestVerifC11Regroup(t *testing.T) {
 		mode := "regroup-chain"
 		nc := 2 + r.Intn(7)
 		recoverAt := -1
-		switch r.Intn(4) {
+		tmpl := r.Intn(4)
+		if c < len(corpus) {
+			tmpl = -1
+		}
+		switch tmpl {
+		case -1:
+			mode = "regroup-corpus"
+			for _, cl := range corpus[c].Callers {
+				callers = append(callers, &vC11GCaller{arrive: cl[0], end: cl[1], kind: cl[2]})
+			}
+			recoverAt = corpus[c].RecoverAt
+			nc = len(callers)
 		case 0:
 			// free mix: arrivals and ends anywhere
 			mode = "regroup-mix"
